@@ -241,14 +241,16 @@ ALWAYS_CUSTOM = ("custom_dimensions_flag", "custom_clean_area_flag")  # tiny fra
 def synthetic_columns(draw, cf):
     """(column json, meta) for the main stratum."""
     col, kinds = {"level": {"v": [SYN_LEVEL]}}, {}
-    tight = draw(st.sampled_from(["loose", "loose", "medium", "medium", "tight"]))
-    K = KINDS[tight]
+    tight = draw(st.sampled_from(["loose", "loose", "medium", "medium", "tight", "one_trivial"]))
+    K = KINDS["loose" if tight == "one_trivial" else tight]
     kinds["tightness"] = tight
     vp = cf["video_parameters"]
     triv = own_trivial_values(cf)
+    # one_trivial: an otherwise loose table that excludes the configuration's value of exactly one encoder-checked key
+    victim = draw(st.sampled_from(sorted(triv))) if tight == "one_trivial" else None
     for k in TRIVIAL_KEYS:
         if k in triv:
-            kinds[k], col[k] = value_cell(draw, k, triv[k], K["trivial"])
+            kinds[k], col[k] = value_cell(draw, k, triv[k], ["restrict"] if k == victim else K["trivial"])
         else:  # key of the other profile: never read
             col[k] = draw(st.sampled_from(["any", {"v": []}]))
     for k in FLAG_KEYS:
@@ -452,11 +454,18 @@ def run_encoder_and_validator(case):
     return "accept", units
 
 
-def err_tag(e):
+def key_class(k):
+    return ("trivial" if k in TRIVIAL_KEYS else "flag" if k in FLAG_KEYS else "index" if k in INDEX_KEYS else
+            "base" if k == "base_video_format" else "ho" if k in HO_KEYS else "value" if k in VP_VALUE_KEYS else
+            "caller" if k in CALLER_KEYS else str(k))
+
+
+def err_tag(e, full=True):
+    """ErrorType[:key] for diagnostics; ErrorType[:class of key] as root-cause bucket."""
     tag = type(e).__name__
     key = getattr(e, "key", None)
     if tag == "ValueNotAllowedInLevel" and key:
-        tag += ":" + str(key)
+        tag += ":" + (str(key) if full else key_class(key))
     return tag
 
 
@@ -485,9 +494,7 @@ def body(case, col):
     for k, kind in kinds.items():
         if k in ("tightness", "near"):
             continue
-        cls = ("trivial" if k in TRIVIAL_KEYS else "flag" if k in FLAG_KEYS else "index" if k in INDEX_KEYS else
-               "base" if k == "base_video_format" else "ho" if k in HO_KEYS else "value" if k in VP_VALUE_KEYS else k)
-        lab.append("cell:%s:%s" % (cls, kind))
+        lab.append("cell:%s:%s" % (key_class(k), kind))
     lab.append("restricting_encoder_cells:%s" % (nrestrict if nrestrict < 6 else "6+"))
     if "tightness" in kinds:
         lab.append("table:%s:%s" % (kinds["tightness"], outcome))
@@ -511,7 +518,7 @@ def body(case, col):
     elif outcome == "reject":
         lab.append("outcome:reject")
         e = detail
-        col.fail("rejected:%s:%s" % (stratum, err_tag(e)), data,
+        col.fail("rejected:%s:%s" % (stratum, err_tag(e, full=False)), data,
                  "encoder produced a sequence for level %d (%s table, pattern %s) but the validator rejects it: %s: %s"
                  % (int(cf["level"]), "substituted" if stratum == "main" else "real", case["pattern"], type(e).__name__,
                     " ".join(e.explain().split())[:400]))
